@@ -8,11 +8,19 @@ AX = ('sample', 'observation')
 
 
 def _ref_natsort(ids):
-    """independent natural order: digit runs compare numerically, the rest as text"""
+    """independent natural order: numbers (digit runs, optionally with a decimal fraction) compare numerically, the rest as text"""
     def key(s):
-        parts = re.split(r'(\d+)', s)
-        return [((0, int(p)) if p.isdigit() else (1, p)) for p in parts], s
+        out = []
+        for tok in re.findall(r'\d+\.\d+|\d+|\D+', s):
+            if tok[0].isdigit():
+                out.append((0, float(tok) if '.' in tok else int(tok)))
+            else:
+                out.append((1, tok))
+        return out, s
     return sorted(ids, key=key)
+
+
+DECIMAL_IDS = ['s1.10', 's1.9', 's1.5', 's01.50']
 
 
 def _state(nr, nc, zeros=0, light=False):
@@ -43,8 +51,13 @@ def h_sort_order(nr, nc, axis):
     prove('sort_order:cell', eq(t2.get_value_by_ids(o, s), a.dense[0][-1]))
 
 
-def h_sort(nr, nc, axis):
-    t, a = _state(nr, nc)
+def h_sort(nr, nc, axis, decimal_ids=False):
+    if decimal_ids:
+        n = nr if axis == 'observation' else nc
+        kw = {'obs_ids': DECIMAL_IDS[:n]} if axis == 'observation' else {'samp_ids': DECIMAL_IDS[:n]}
+        t, a = make_table(nr, nc, md=pick(['none', 'both'], 'md'), type_='OTU table', unsorted=False, layouts=('csr',), **kw)
+    else:
+        t, a = _state(nr, nc)
     kind = pick(['natsort', 'reverse'], 'sort_f')
     ids = a.ids(axis)
     if kind == 'natsort':
@@ -156,6 +169,8 @@ def jobs(tier):
             out.append(('update_ids', (nr, nc, ax)))
         out.append(('transpose', (nr, nc)))
         out.append(('copy', (nr, nc)))
+    for ax in AX:
+        out.append(('sort', (3, 3, ax, True)))
     for nr, nc in ([(2, 3)] if tier == 'quick' else [(2, 3), (3, 2), (3, 3)]):
         for mode in ('sample', 'observation', 'both', 'detect'):
             out.append(('align_to', (nr, nc, mode)))
